@@ -2713,6 +2713,8 @@ class C10(Check):
         if not self.violations:
             self.spline_slice()
         if not self.violations:
+            self.spline_vector_slice()
+        if not self.violations:
             # guesses for algebraic variables under a shooting method with a DAE integrator, across a solve, a live set_initial and a
             # re-transcription: the same starting data as without the intermediate solve
             from .props2 import dae_shooting_history_slice
@@ -2809,6 +2811,88 @@ class C10(Check):
             if err:
                 self.slice_ok[name] = False
                 self.violation("SplineMethod: %s (%s)" % (err, hist), {"case": hist}, {"kind": "spline-start", "order": hist["order"]})
+                return
+
+    def spline_vector_slice(self):
+        """SplineMethod with a vector-valued state whose components head integrator chains of different length (splines of different
+        degree): a guess per component, constant or affine in time (reproduced exactly by a spline of degree >= 1 from its values at
+        the Greville points: C17.linear_precision), shows up component by component at the control grid"""
+        import casadi as ca
+        import numpy as np
+        try:
+            import networkx  # noqa
+        except ImportError:
+            return
+        rockit = B.import_rockit()
+        name = "spline-coefficients"
+        n = 8 if self.tier == 'quick' else 80
+        rng = self.rng
+        for it in range(n):
+            Ls = [(2, 1), (1, 2), (3, 1), (1, 3), (2, 3), (2, 2), (3, 2), (1, 1)][it % 8]   # chain length behind each component (number of integrations to its control)
+            N = rng.randint(2, 4)
+            t0 = rng.randint(-2, 4) / 2.0
+            Tg = rng.randint(1, 8) / 2.0
+            before = (it // 8 + it) % 2 == 0
+            kind = ['affine', 'const'][(it // 2) % 2]
+            cs = [[rng.randint(-8, 8) / 4.0, rng.randint(-8, 8) / 4.0 or 0.5] for _ in range(2)]
+            if kind == 'const':
+                cs = [[c[0] or 1.25, 0.0] for c in cs]
+                if cs[0][0] == cs[1][0]:
+                    cs[1][0] += 0.75
+            guess_others = rng.random() < 0.5
+            hist = {"chains": Ls, "N": N, "t0": t0, "T": Tg, "kind": kind, "coefficients": cs, "order": "before" if before else "after", "guess_for_other_head": guess_others}
+            try:
+                with B.quiet():
+                    ocp = rockit.Ocp(t0=t0, T=Tg)
+                    x = ocp.state(2)
+                    rhs = []
+                    for c in range(2):
+                        inner = [ocp.state() for _ in range(Ls[c] - 1)]
+                        u = ocp.control()
+                        for a, b_ in zip(inner, inner[1:] + [u]):
+                            ocp.set_der(a, b_)
+                        rhs.append((inner + [u])[0])
+                        ocp.add_objective(ocp.sum(u ** 2, include_last=False))
+                    ocp.set_der(x, ca.vertcat(*rhs))
+                    y = ocp.state()          # another chain head, declared after x, of the degree of component 0 or 1
+                    uy = ocp.control()
+                    ocp.set_der(y, uy)
+                    ocp.add_objective(ocp.sum(uy ** 2, include_last=False) + ocp.at_tf(y ** 2))
+                    ocp.subject_to(ocp.at_t0(x) == 0)
+                    ocp.method(rockit.SplineMethod(N=N))
+                    ocp.solver('ipopt', {'ipopt.print_level': 0, 'print_time': False, 'ipopt.max_iter': 0, 'ipopt.sb': 'yes'})
+                    if not before:
+                        ocp._transcribed
+                    g = ca.vertcat(*[c[0] + c[1] * ocp.t for c in cs]) if kind == 'affine' else ca.DM([c[0] for c in cs])
+                    ocp.set_initial(x, g)
+                    if guess_others:
+                        ocp.set_initial(y, -2.5)
+                    ocp._transcribed
+                    opti = ocp._method.opti
+                    val = lambda e: np.array(opti.debug.value(e, opti.initial()))
+                    ts, xs = ocp.sample(x, grid='control')
+                    ts, xs = val(ts).flatten(), np.atleast_2d(val(xs))
+                    ys = val(ocp.sample(y, grid='control')[1]).flatten()
+            except Exception as ex:
+                self.slice_ok[name] = False
+                self.violation("SplineMethod with a vector-valued chain head raised %s: %s (%s)" % (type(ex).__name__, str(ex)[:200], hist), {"case": hist},
+                               {"kind": "exception", "method": "spline"})
+                return
+            self.evaluations += 1
+            self.signatures.add(repr(hist))
+            self.count("spline-vector-head:%s:%s" % (kind, hist["order"]))
+            err = None
+            for c in range(2):
+                want = [cs[c][0] + cs[c][1] * t_ for t_ in ts]
+                if xs.shape[0] != 2 or any(abs(a - b_) > 1e-9 * (1 + abs(b_)) for a, b_ in zip(xs[c], want)):
+                    err = "component %d of the vector state starts at %s on the control grid, its guess gives %s" % (c, list(xs[c]) if xs.shape[0] == 2 else xs.tolist(), want)
+                    break
+            wy = -2.5 if guess_others else 0.0
+            if err is None and any(abs(v - wy) > 1e-9 for v in ys):
+                err = "the scalar chain head declared next starts at %s, its guess in effect is %s" % (list(ys), wy)
+            if err:
+                self.slice_ok[name] = False
+                self.violation("SplineMethod: %s (%s)" % (err, hist), {"case": hist}, {"kind": "spline-vector-start", "order": hist["order"]})
                 return
 
     def sampling_methods_slice(self):
